@@ -743,8 +743,6 @@ impl<T: Qcow2IoOps> Qcow2Dev<T> {
         let bs_mask = bs - 1;
         let mut len = buf.len();
         let old_offset = offset;
-        let single =
-            (offset >> info.cluster_bits()) == ((offset + (len as u64) - 1) >> info.cluster_bits());
 
         log::debug!("write_at offset {:x} len {} >>>", offset, buf.len());
 
@@ -767,6 +765,14 @@ impl<T: Qcow2IoOps> Qcow2Dev<T> {
         if info.is_read_only() {
             return Err("write_at: write to read-only image".into());
         }
+
+        if len == 0 {
+            return Ok(());
+        }
+
+        // figured out after validating, so that it can't overflow
+        let single =
+            (offset >> info.cluster_bits()) == ((offset + (len as u64) - 1) >> info.cluster_bits());
 
         if single {
             let l2_entry = self.populate_single_write_mapping(offset).await?;
